@@ -14,6 +14,7 @@ mod e1j_model;
 mod e1u;
 mod e1u_model;
 mod e3;
+mod e4;
 mod engine;
 mod exec;
 mod rng;
@@ -33,6 +34,7 @@ pub enum Eng {
     E1U,
     E1J,
     E3,
+    E4,
 }
 
 impl Eng {
@@ -41,6 +43,7 @@ impl Eng {
             "e1-uist" => Some(Eng::E1U),
             "e1-jura" => Some(Eng::E1J),
             "e3-broker" => Some(Eng::E3),
+            "e4-strategy" => Some(Eng::E4),
             _ => None,
         }
     }
@@ -61,6 +64,10 @@ macro_rules! with_engine {
                 let $e = &e3::E3;
                 $body
             }
+            Eng::E4 => {
+                let $e = &e4::E4;
+                $body
+            }
         }
     };
 }
@@ -72,6 +79,7 @@ fn plan(prop: &str) -> Vec<(Eng, u64, u64)> {
         "C18" => vec![(Eng::E1J, 200_000, 6_000_000)],
         "C01" | "C03" | "C07" | "C17" => vec![(Eng::E1U, 120_000, 3_000_000), (Eng::E1J, 120_000, 3_000_000)],
         "C04" | "C05" | "C06" | "C09" | "C10" | "C11" | "C12" => vec![(Eng::E3, 150_000, 5_000_000)],
+        "C16" => vec![(Eng::E4, 60_000, 1_000_000)],
         "C08" => vec![(Eng::E1U, 60_000, 1_500_000), (Eng::E1J, 60_000, 1_500_000)],
         _ => vec![],
     }
@@ -397,7 +405,7 @@ fn cmd_determinism(args: &[String]) {
     let seeds: u64 = arg_val(args, "--seeds").and_then(|s| s.parse().ok()).unwrap_or(2000);
     let jobs: usize = arg_val(args, "--jobs").and_then(|s| s.parse().ok()).unwrap_or(16);
     let base: u64 = arg_val(args, "--seed").and_then(|s| s.parse().ok()).unwrap_or(1);
-    let engines = [Eng::E1U, Eng::E1J, Eng::E3];
+    let engines = [Eng::E1U, Eng::E1J, Eng::E3, Eng::E4];
     for eng in engines {
         let next = std::sync::atomic::AtomicU64::new(0);
         let results = std::sync::Mutex::new(Vec::<(u64, u64, u64)>::new());
